@@ -1,0 +1,11 @@
+//go:build !verif
+
+package messagequeue
+
+import cid "github.com/ipfs/go-cid"
+
+// Verification schedule points: empty (and inlined away) unless built with -tags verif.
+
+func verifPoint(int, int, int, int) {}
+
+func verifSortCids([]cid.Cid) {}
